@@ -78,6 +78,8 @@ def gen_program(r, idx):
                 args_attr=r.random() < 0.3,      # a callable instance with an attribute `args` of its own (it is not a functools.partial)
                 named_inst=r.random() < 0.3,     # a callable instance that carries a __name__ (as after functools.update_wrapper)
                 falsy=r.random() < 0.3,     # the instance (methods, callable instances) is falsy: `bool(inst)` is False
+                static_call=(idx % 3 == 1),   # kinds `callable` / `partial_callable`: `__call__` is a staticmethod (it takes no instance)
+                sub_override=(idx % 2 == 0),  # kind `unbound`: the instance belongs to a SUBCLASS that overrides the method and delegates with super()
                 pnames=(CLASH_NAMES if (r.random() < 0.12 and not varargs) else None),
                 p_npos=r.choice([0, 1, 1, 2]), p_kw=r.random() < 0.5, p_kwname=r.choice(PNAMES + KWONLY + ['q']),
                 p_vals=[r.choice(POOL) for _ in range(3)])
@@ -113,6 +115,8 @@ def build_callable(prog):
     # the binding oracle: a twin with the same parameter list that returns what CPython bound (inspect.Signature.bind wrongly
     # rejects a keyword that shares the name of a positional-only parameter and belongs in **kw)
     selfp = [] if (prog.get('noself') and kind in ('method', 'callable', 'partial_method', 'partial_callable')) else ['self']
+    static = bool(prog.get('static_call')) and kind in ('callable', 'partial_callable') and not prog.get('noself')
+    if static: selfp = []
     own = params if kind in ('func', 'partial', 'wrapped') else selfp + params
     exec('def probe(%s): return dict(locals())\n' % ', '.join(own), ns)
     if kind in ('func', 'partial', 'wrapped'):
@@ -128,11 +132,15 @@ def build_callable(prog):
             src += '# target = functools.wraps(inner)(target)   with   def inner(only)\n'
     else:
         meth = '__call__' if kind in ('callable', 'partial_callable') else 'target'
-        src = 'class C(object):\n    def %s(%s):\n        _calls.append(1); return 0\n' % (meth, ', '.join(selfp + params))
+        src = 'class C(object):\n%s    def %s(%s):\n        _calls.append(1); return 0\n' % ('    @staticmethod\n' if static else '', meth, ', '.join(selfp + params))
         if prog.get('falsy'): src += '    def __len__(self): return 0\n'
         exec(src, ns)
         getattr(ns['C'], meth).__probe__ = ns['probe']
         inst = ns['C']()
+        if kind == 'unbound' and prog.get('sub_override'):
+            # the function handed to klepto is C.target; the instance's own attribute of that name is D.target (bound to the instance)
+            exec('class D(C):\n    def target(self, *a, **k):\n        return super().target(*a, **k)\n', ns)
+            inst = ns['D'](); src += '# the instance is a D():  class D(C): def target(self, *a, **k): return super().target(*a, **k)\n'
         if kind == 'callable' and prog.get('args_attr'):
             inst.args = ('zz', 3); src += '# inst.args = ("zz", 3)\n'
         if kind == 'callable' and prog.get('named_inst'):
@@ -210,11 +218,23 @@ def sbind(sig, a, k):
         return ba
 
 
+def true_signature(f):
+    """inspect.signature, repaired: for an instance whose `__call__` is a staticmethod CPython 3.12's inspect drops the first
+    parameter as if it were the instance (the call itself binds all of them)"""
+    g = f.func if isinstance(f, functools.partial) else f
+    if not inspect.isroutine(g) and not inspect.isclass(g) and isinstance(type(g).__dict__.get('__call__'), staticmethod):
+        fn = type(g).__dict__['__call__'].__func__
+        if isinstance(f, functools.partial):
+            return inspect.signature(functools.partial(fn, *f.args, **(f.keywords or {})), follow_wrapped=False)
+        return inspect.signature(fn, follow_wrapped=False)
+    return inspect.signature(f, follow_wrapped=False)
+
+
 def respell(r, f, args, kw, inst_first):
     """other spellings of the same call: positional <-> keyword, keyword order, defaults spelled out.
     Returns a list of (args, kw) that CPython binds identically (oracle: inspect.signature)."""
     try:
-        sig = inspect.signature(f, follow_wrapped=False)
+        sig = true_signature(f)
         ba = sbind(sig, args, kw)
         full_bind(f, args, kw)
     except (TypeError, ValueError):
